@@ -40,7 +40,10 @@ Cfg(flags) ==
 
 NoFn == [none |-> TRUE]
 
-Act(stk, kind, lnames, self) == [stk |-> stk, kind |-> kind, loc |-> <<>>, lnames |-> lnames, self |-> self]
+(* cond: the Python variable `condition` of this scope -- ONE variable that every if statement and every while
+   loop of the same scope assigns (ConditionVariableShared) *)
+Act(stk, kind, lnames, self) == [stk |-> stk, kind |-> kind, loc |-> <<>>, lnames |-> lnames, self |-> self, cond |-> [i |-> 0]]
+SetCond(m, v) == [m EXCEPT !.acts[Len(m.acts)].cond = v]
 
 InitMachine(tree, inputs, flags) ==
     [ctl |-> [k \in 1..Len(tree) |-> [k |-> "node", n |-> tree[k]]],
@@ -196,7 +199,7 @@ EnterFunction(m, fv) ==
         ps == t[2]
     IN IF ~t[4] THEN Undef(m, "star-parameter")
        ELSE [m1 EXCEPT
-               !.acts = Append(@, [stk |-> ps, kind |-> "fn", loc |-> t[3],
+               !.acts = Append(@, [stk |-> ps, kind |-> "fn", loc |-> t[3], cond |-> [i |-> 0],
                                    lnames |-> Assigned(fv.f.body) \cup ParamNames(fv.f.params), self |-> fv]),
                !.cvals = Append(@, VL(ps)),
                !.inps = Append(@, [vals |-> RevSeq(ps), cur |-> 0]),       \* FunctionInputsReversed
@@ -463,9 +466,14 @@ RecurseStep(m0, parent) ==
            ELSE LET rest == DropUntil(m0.ctl, {"popcv"})
                     loop == DropUntil(rest, LoopItems)
                 IN IF loop # <<>> /\ Head(loop).k = "whiletest"
-                   \* Python `continue` in the while template jumps to the loop test WITHOUT re-running
-                   \* the condition code: the stale (truthy) condition restarts the body (WhileContinueKeepsCondition)
-                   THEN [m0 EXCEPT !.ctl = Nodes(Head(loop).body) \o rest]
+                   \* Python `continue` in the while template jumps to the loop test WITHOUT re-running the
+                   \* condition code (WhileContinueKeepsCondition): the test reads the scope's variable `condition`,
+                   \* which is whatever the last if statement or while loop of this scope assigned
+                   \* (ConditionVariableShared) -- the x template has already popped the context value
+                   THEN LET c == Top(m0).cond
+                        IN IF CondTrue(c, m0.cfg.tflag)
+                           THEN [m0 EXCEPT !.cvals = Append(Front(@), c), !.ctl = Nodes(Head(loop).body) \o rest]
+                           ELSE [m0 EXCEPT !.cvals = Front(@), !.ctl = Tail(loop)]
                    ELSE [m0 EXCEPT !.ctl = rest]
       [] parent = "lam" ->
            IF Top(m0).kind # "lambda" THEN Undef(m0, "recurse-in-item")
@@ -558,7 +566,7 @@ NodeStep(m0, n) ==
       [] n.t = "recurse" -> RecurseStep(m0, n.parent)
       [] n.t = "if" ->
            LET p == Pop1(m0)
-           IN PushCtl(p[2], <<[k |-> "ifsel", br |-> n.br, i |-> 1, c |-> p[1]]>>)       \* IfNoContext
+           IN PushCtl(SetCond(p[2], p[1]), <<[k |-> "ifsel", br |-> n.br, i |-> 1, c |-> p[1]]>>)       \* IfNoContext
       [] n.t = "for" ->
            LET p == Pop1(m0)
            IN IF ~IterOK(p[2], p[1]) /\ ~IsS(p[1]) THEN Undef(m0, "iterable")
@@ -600,7 +608,7 @@ ItemStep(m0, it) ==
                    ELSE IF left = 1 THEN PushCtl(m0, Nodes(it.br[it.i + 1]))
                    ELSE PushCtl(m0, Nodes(it.br[it.i + 1]) \o <<[k |-> "iftest", br |-> it.br, i |-> it.i + 2]>>)
       [] it.k = "iftest" ->
-           LET p == Pop1(m0) IN PushCtl(p[2], <<[k |-> "ifsel", br |-> it.br, i |-> it.i, c |-> p[1]]>>)
+           LET p == Pop1(m0) IN PushCtl(SetCond(p[2], p[1]), <<[k |-> "ifsel", br |-> it.br, i |-> it.i, c |-> p[1]]>>)
       [] it.k = "for" ->
            IF it.rest = <<>> THEN m0
            ELSE LET x == Head(it.rest)
@@ -610,10 +618,11 @@ ItemStep(m0, it) ==
                                    !.ctl = Nodes(it.body) \o <<[k |-> "popcv"], [it EXCEPT !.rest = Tail(it.rest)]>> \o @]
       [] it.k = "whiletest" ->
            LET p == Pop1(m0)
+               q == SetCond(p[2], p[1])
            IN IF CondTrue(p[1], m0.cfg.tflag)
-              THEN [p[2] EXCEPT !.cvals = Append(@, p[1]),
-                                !.ctl = Nodes(it.body) \o <<[k |-> "popcv"]>> \o Nodes(it.cond) \o <<it>> \o @]
-              ELSE p[2]
+              THEN [q EXCEPT !.cvals = Append(@, p[1]),
+                             !.ctl = Nodes(it.body) \o <<[k |-> "popcv"]>> \o Nodes(it.cond) \o <<it>> \o @]
+              ELSE q
       [] it.k = "ret" -> LET p == Pop1(m0) IN LeaveLambda(p[2], p[1])
       [] it.k = "fnret" ->
            LET res == Stk(m0)
